@@ -9,6 +9,9 @@
  *                                  (fresh / pre-used / aliased output must agree, else MISMATCH)
  *   rlb <c0,c1,..,cn>              coefficient_root_lower_bound (internal) on the univariate polynomial: prints k
  *   sc <cond 0..5> <sign>          lp_sign_condition_consistent
+ *   va <perm> <poly> <tok0> ..     coefficient_value_approx (internal): prints the rational interval of every
+ *                                  variable (lp_assignment_get_value_approx, which also refines) and then the
+ *                                  interval computed for the polynomial:  an/ad:bn/bd:a_open:b_open:is_point
  */
 #include "polyio.h"
 #include "valio.h"
@@ -16,6 +19,8 @@
 #include <sign_condition.h>
 #include "polynomial/polynomial.h"
 #include "polynomial/coefficient.h"
+#include <rational_interval.h>
+#include "number/rational.h"
 
 unsigned coefficient_root_lower_bound(const coefficient_t* C);
 
@@ -40,6 +45,12 @@ static int set_assignment(lp_assignment_t* m, int base, int n) {
     lp_value_destruct(&v);
   }
   return 1;
+}
+
+static void print_ri(const lp_rational_interval_t* I) {
+  print_z(mpq_numref(&I->a)); putchar('/'); print_z(mpq_denref(&I->a)); putchar(':');
+  if (I->is_point) printf("0/1"); else { print_z(mpq_numref(&I->b)); putchar('/'); print_z(mpq_denref(&I->b)); }
+  printf(":%d:%d:%d", I->a_open ? 1 : 0, I->b_open ? 1 : 0, I->is_point ? 1 : 0);
 }
 
 static void print_coefficient(const coefficient_t* C) {
@@ -105,6 +116,31 @@ int main(void) {
         }
         coefficient_destruct(&r1); coefficient_destruct(&r2); coefficient_destruct(&r3);
         lp_integer_destruct(&m1); lp_integer_destruct(&m2); lp_integer_destruct(&m3);
+      }
+      lp_assignment_delete(m);
+      lp_polynomial_delete(p);
+    } else if (is_op("va") && vntok >= 3) {
+      int n = set_perm(vtok[1]);
+      lp_polynomial_t* p = pio_new(vtok[2]);
+      lp_assignment_t* m = lp_assignment_new(pio_db);
+      if (!set_assignment(m, 3, n)) { printf("badinput"); }
+      else {
+        lp_polynomial_sgn(p, m) /* brings p into the current order (external polynomial) */;
+        for (int i = 0; i < n; ++i) {
+          if (lp_assignment_get_value(m, pio_x[i])->type == LP_VALUE_NONE) { printf("none "); continue; }
+          lp_rational_interval_t xi; lp_rational_interval_construct_zero(&xi);
+          lp_assignment_get_value_approx(m, pio_x[i], &xi);
+          print_ri(&xi); putchar(' ');
+          lp_rational_interval_destruct(&xi);
+        }
+        printf("| ");
+        /* pre-used output operand */
+        lp_rational_interval_t v; lp_rational_t l, u;
+        rational_construct_from_int(&l, -7, 3); rational_construct_from_int(&u, 5, 2);
+        lp_rational_interval_construct(&v, &l, 1, &u, 0);
+        coefficient_value_approx(pio_ctx, &p->data, m, &v);
+        print_ri(&v);
+        lp_rational_interval_destruct(&v); rational_destruct(&l); rational_destruct(&u);
       }
       lp_assignment_delete(m);
       lp_polynomial_delete(p);
